@@ -10,6 +10,8 @@ import FqModel.Gaps
                   fields D.FillGaps added to it.
       verdict: the coverage predicate evaluated on <r>*,<g>* (independent of the model), then
                model `gaps total rs` = <g>* .
+  `coverall <total> [@note]* <all non-gap leaves of the buffer>*` TAB `<all gap fields of the buffer>*|-`
+      run "tree", once per gap-filled buffer root: no bit of the buffer is lost (see coverAllVerdict).
   `cover <total> [@note]* <r>*` TAB `<g>*|-`
       the coverage predicate only (run "tree", buffers whose root value was replaced by a single
       scalar leaf — json, xml, … — where the gap fields FillGaps computes cannot be attached).
@@ -55,7 +57,8 @@ def addEvents (a : Array Ev) (rs : List Range) (field : Bool) : Array Ev :=
       else (a.push ⟨r.start, 0, 1⟩).push ⟨r.stop, 0, -1⟩
     else (a.push ⟨r.start, 0, 0⟩).push ⟨r.stop, 0, 0⟩) a
 
-def sweep (total : Range) (rs gs : List Range) : Option (Int × BitVerdict) × Option Int := Id.run do
+def sweep (total : Range) (rs gs : List Range) (holeRs : List Range := rs) (ignoreOverlap : Bool := false) :
+    Option (Int × BitVerdict) × Option Int := Id.run do
   let ev := ((addEvents (addEvents #[] rs true) gs false).push ⟨total.start, 0, 0⟩).push ⟨total.stop, 0, 0⟩
   let ev := ev.qsort (fun x y => x.pos < y.pos)
   let mut cf : Int := 0
@@ -72,9 +75,9 @@ def sweep (total : Range) (rs gs : List Range) : Option (Int × BitVerdict) × O
       let hi := if q > total.stop then total.stop else q
       if lo < hi then
         if cf > 0 && cg > 0 then
-          if bad.isNone then bad := some (lo, .overlap)
+          if bad.isNone && !ignoreOverlap then bad := some (lo, .overlap)
         else if cf ≤ 0 && cg ≤ 0 then
-          if hi - lo == 1 && oneBitHole rs lo then
+          if hi - lo == 1 && oneBitHole holeRs lo then
             if known.isNone then known := some lo
           else if bad.isNone then bad := some (lo, .lost)
   return (bad, known)
@@ -96,6 +99,24 @@ def gapsVerdict (compare : Bool) (total : Range) (rs implGaps : List Range) : St
     else match known with
     | some b => s!"KNOWN one-bit-hole bit={b}{div}"
     | none => if div.isEmpty then "OK" else s!"DIVERGE model={showRanges model}"
+
+/-- `coverall`: the property on a whole gap-filled buffer, independent of how fq groups leaves:
+    no bit of the buffer is outside all non-gap leaves and all gap fields reachable in it.
+    A one-bit hole counts as the known class when the ranges D.FillGaps saw (leaves and the gap
+    fields of nested sub-decodes alike) have a stop at the bit and a start one bit later.
+    Overlap of a gap with a leaf is NOT judged here: it is judged per FillGaps call (`gaps`),
+    which is what FillGaps guarantees — the gap fields of a length-delimited sub-decode may lie
+    over leaves that are outside that sub-decode (overlapping FieldFormatRange/Len regions). -/
+def coverAllVerdict (total : Range) (rs gs : List Range) : String :=
+  let (bad, known) := sweep total rs gs (rs ++ gs) true
+  let outside := gs.filter (fun g => g.len < 0 || (g.len > 0 && (g.start < total.start || g.stop > total.stop)))
+  match bad with
+  | some (b, .lost) => s!"PROPFAIL bit={b} is in no leaf and in no gap field of the buffer"
+  | _ =>
+    if !outside.isEmpty then s!"PROPFAIL gap-outside-total {showRange outside.head!}"
+    else match known with
+    | some b => s!"KNOWN one-bit-hole bit={b}"
+    | none => "OK"
 
 def gapbitsVerdict (hexw soff snb sgl : String) (obs : List String) : String :=
   match bytesOfHex hexw, soff.toNat?, snb.toNat?, sgl.toNat? with
@@ -127,6 +148,10 @@ def stepC04 (op obs : String) : String :=
   | "cover" :: t :: rs =>
     match parseRange t, parseRanges rs, parseRanges (words obs) with
     | some total, some rs, some implGaps => gapsVerdict false total rs implGaps
+    | _, _, _ => "BADOP parse"
+  | "coverall" :: t :: rs =>
+    match parseRange t, parseRanges rs, parseRanges (words obs) with
+    | some total, some rs, some gs => coverAllVerdict total rs gs
     | _, _, _ => "BADOP parse"
   | ["gapbits", hexw, soff, snb, sgl] => gapbitsVerdict hexw soff snb sgl (words obs)
   | _ => "BADOP op"
